@@ -17,11 +17,14 @@ EXPLANATION = ('_integrate loop under contract with a dependency (non-interferen
 TEXT = ('per-step non-interference and the row-construction contracts are proved; the whole-trajectory corollary (same row at '
         'the same distance for two different requests) is their induction over the steps and is exercised by a bounded '
         'stand-in; recorded finding D16 (step > range: terminal row) is listed under C03')
-NOT_DECIDED = ['the induction over steps that turns per-step non-interference into equality of whole result lists is on paper '
+NOT_DECIDED = ['RECORDED FINDING C11-substep-recording (known_findings.json, re-checked on every run): with a recording step '
+               'below the integration step at most one row per integration step is produced and the row at the requested '
+               'range is lost, so such a card is not a superset of a coarser one',
+               'the induction over steps that turns per-step non-interference into equality of whole result lists is on paper '
                '(DESIGN.md 5, C11); bounded stand-in compares requests',
                'the float drift of the accumulated record distance between different steps (A-REAL): rows agree to rounding, '
                'bounded']
-EXTRA = ['bounded_request_independence', 'rt_integrate']
+EXTRA = ['bounded_request_independence', 'bounded_substep_recording', 'rt_integrate']
 
 
 def bounded_request_independence(tier, seed):
@@ -56,6 +59,16 @@ def bounded_request_independence(tier, seed):
             'time step': calc.fire(shot, P.Unit.Yard(600), P.Unit.Yard(50), time_step=0.05).trajectory,
             'extra data': calc.fire(shot, P.Unit.Yard(600), P.Unit.Yard(50), extra_data=True).trajectory,
         }
+        # a recording step below the integration step (0.1 ft < 0.25 ft) against a 10 ft step over a short range
+        fine = {key(r): r for r in calc.fire(shot, P.Unit.Foot(60), P.Unit.Foot(0.1)).trajectory}
+        coarse = calc.fire(shot, P.Unit.Foot(60), P.Unit.Foot(10)).trajectory
+        cases += 1
+        both = [r for r in coarse if key(r) in fine]
+        if len(both) < 4:
+            bad = 'sub-step recording: fewer than 4 common rows (check broken?)'
+        for r in both:       # presence of every row is the separate obligation bounded_substep_recording (recorded finding)
+            if not same(r, fine[key(r)]):
+                bad = f'sub-step recording: row at {key(r)} ft differs: {vals(r)} vs {vals(fine[key(r)])}'
         for name, tr in variants.items():
             cases += 1
             got = {key(r): r for r in tr}
@@ -78,3 +91,19 @@ def bounded_request_independence(tier, seed):
     return result('bounded:request-independence', [mk('same-row-at-the-same-distance-whatever-the-request', bad is None,
                   'rows at common distances agree to 1e-9 relative across shorter range / coarser / finer step / time step / '
                   'extra data; subset relations; extra rows are flagged', cases, t0, bad)], t0, props=('C11',))
+
+
+def bounded_substep_recording(tier, seed):
+    """RECORDED FINDING C11-substep-recording: a recording step below the integration step (0.1 ft < 0.25 ft)"""
+    from pyvc.bounded import pkg, mk
+    from pyvc.scan import result
+    P = pkg()
+    t0 = time.time()
+    shot = P.Shot(P.Weapon(P.Unit.Inch(2), P.Unit.Inch(12)), P.Ammo(P.DragModel(0.3, P.TableG7), P.Unit.FPS(2600)))
+    fine = [round(r.distance >> P.Unit.Foot, 6) for r in P.Calculator().fire(shot, P.Unit.Foot(50), P.Unit.Foot(0.1)).trajectory]
+    coarse = [round(r.distance >> P.Unit.Foot, 6) for r in P.Calculator().fire(shot, P.Unit.Foot(50), P.Unit.Foot(10)).trajectory]
+    missing = [d for d in coarse if d not in fine]
+    return result('bounded:substep-recording', [mk('finer-than-the-integration-step-card-contains-the-coarser-card', not missing,
+                  '2600 fps G7 0.3 load, range 50 ft: every row of the 10 ft card is present in the 0.1 ft card', 1, t0,
+                  f'rows at {missing} ft of the 10 ft card are missing from the 0.1 ft card ({len(fine)} rows, last at '
+                  f'{fine[-1]} ft)' if missing else None)], t0, props=('C11',))
